@@ -680,6 +680,9 @@ cdef class StratifiedSFCNNPS(NNPS):
 
         self._fill_nbr_boxes()
 
+        # the arrays the current context points to were re-allocated
+        self.set_context(self.src_index, self.dst_index)
+
     @cython.cdivision(True)
     cdef void fill_array(self, NNPSParticleArrayWrapper pa_wrapper,
             int pa_index, uint32_t* current_pids,
